@@ -108,6 +108,14 @@ S["maxadv_inflight"] = dict(until=3, sims=[E("Cc", init_event=0, emit_default=0)
 # ---- mixed inputs -------------------------------------------------------------------
 S["hyb_mixed_inputs"] = dict(until=3, sims=[T("A"), E("Q", init_event=0, emit=[0]), H("B", next_default=1)],
                              conns=[C("A", "B", "po", "mi"), C("Q", "B", "eo", "ti")])
+# a hybrid producer stamping its whole reply (persistent value included) with a future time
+# (output times monotone in production order: otherwise "most recent value" is ambiguous, A5)
+S["hyb_future_persistent"] = dict(until=5, sims=[H("A", emit_default=2, next_default=1), T("B"),
+                                                 E("Z")],
+                                  conns=[C("A", "B", "po", "mi"), C("A", "Z", "eo", "ti")])
+# real-time pacing must not switch off the lazy wait
+S["rt_fast_prod_slow_cons"] = dict(until=3, rt_factor=1, max_budget=0,
+                                   sims=[T("A"), T("B")], conns=[C("A", "B", "po", "mi")])
 # a persistent and an event source into ONE trigger attribute of one entity
 S["hyb_mixed_same_attr"] = dict(until=3, sims=[T("A"), E("Q", init_event=0, emit=[0]),
                                                H("B", next_default=1)],
@@ -199,6 +207,26 @@ S["loop_inner_tier_unsettled"] = dict(
     sims=[E("A", group="h", init_event=0, emit_default=0), E("B", group="h", emit_default=0),
           T("O", group="g")],
     conns=[C("A", "B", "eo", "ti"), C("B", "A", "eo", "ti", weak=True)])
+# an earlier sub-step is scheduled while the simulator already waits for a later one
+S["two_weak_feeders"] = dict(
+    until=1, max_loop=5, groups=G1,
+    sims=[E("P", group="g", init_event=0, emit=[0]), E("X", group="g", init_event=0, emit=[0]),
+          E("Y", group="g", emit_default=0), E("A", group="g")],
+    conns=[C("P", "A", "eo", "ti", weak=True), C("X", "Y", "eo", "ti", weak=True),
+           C("Y", "A", "eo", "ti2", weak=True)])
+# a weak and (connected later) a plain connection between one pair, closed by a weak connection
+S["loop_weak_then_plain"] = dict(
+    until=2, max_loop=4, groups=G1,
+    sims=[E("A", group="g", init_event=0, emit=[0, 0], next=[None, None, 1]),
+          E("B", group="g", emit_default=0)],
+    conns=[C("A", "B", "eo", "ti2", weak=True), C("A", "B", "eo", "ti"),
+           C("B", "A", "eo", "ti", weak=True)])
+# a loop that never settles and whose events carry the value None
+S["loop_unsettled_none"] = dict(
+    until=2, max_loop=3, groups=G1,
+    sims=[E("A", group="g", init_event=0, emit_default=0, none_at=list(range(12))),
+          E("B", group="g", emit_default=0, none_at=list(range(12)))],
+    conns=[C("A", "B", "eo", "ti"), C("B", "A", "eo", "ti", weak=True)])
 # a loop member always answers for the next time step: one sub-step per time step, forever
 S["weak_loop_next_time"] = dict(
     until=6, max_loop=3, groups=G1,
@@ -218,7 +246,8 @@ S["nested_groups"] = dict(
            C("B", "O", "eo", "ti"), C("O", "A", "eo", "ti", weak=True)])
 S["sibling_groups"] = dict(
     until=2, max_loop=4, groups={"g": None, "g2": None},
-    sims=[E("A", group="g", init_event=0, emit=[0], next=[None, 1]), E("B", group="g", emit=[0]),
+    sims=[E("A", group="g", init_event=0, emit=[0, 0], next=[None, None, 1]),
+          E("B", group="g", emit=[0, 0]),
           E("P", group="g2", emit=[0]), E("Q", group="g2", emit=[0])],
     conns=[C("A", "B", "eo", "ti"), C("B", "A", "eo", "ti", weak=True),
            C("A", "P", "eo", "ti"), C("P", "Q", "eo", "ti"), C("Q", "P", "eo", "ti", weak=True)])
@@ -245,6 +274,28 @@ S["async_in_group"] = dict(
           T("M1", 1, group="g", **{"async": {"0": [("set", "A.e", "mi")], "1": [("set", "A.e", "mi")]}})],
     conns=[dict(src="A", dst="M1", sattr="po", dattr="mi", **{"async": True})])
 
+# ---- longer trigger chains ending in a self-stepping consumer, started against the data flow,
+# with a time-shifted hop that is not the first one (transitive-ancestor bookkeeping) -----------
+_CH = [E("X", init_event=0, emit_default=0, next=[1, 1]), E("M", emit_default=0), E("N", emit_default=0),
+       H("W", next_default=1)]
+S["E_chain4_W"] = dict(until=3, sims=_CH, conns=[C("X", "M", "eo", "ti"), C("M", "N", "eo", "ti"),
+                                                 C("N", "W", "eo", "ti")])
+S["E_chain4_W_rev"] = dict(S["E_chain4_W"], order=["W", "N", "M", "X"])
+S["E_chain4_W_mixed"] = dict(S["E_chain4_W"], order=["X", "N", "M", "W"])
+S["E_chain_shift_last_W"] = dict(until=3, sims=_CH,
+                                 conns=[C("X", "M", "eo", "ti"), C("M", "N", "eo", "ti", shift=1),
+                                        C("N", "W", "eo", "ti")])
+S["E_chain_shift_last_W_rev"] = dict(S["E_chain_shift_last_W"], order=["W", "N", "M", "X"])
+# five simulators: the last but one is three trigger hops away from the source, and has a consumer
+_CH5 = [E("X", init_event=0, emit_default=0, next=[1]), E("M", emit_default=0), E("N", emit_default=0),
+        E("W", emit_default=0), H("Y", next_default=1)]
+S["E_chain5_Y_rev"] = dict(until=2, max_budget=0, sims=_CH5, order=["Y", "W", "N", "M", "X"],
+                           conns=[C("X", "M", "eo", "ti"), C("M", "N", "eo", "ti"),
+                                  C("N", "W", "eo", "ti"), C("W", "Y", "eo", "ti")])
+S["insert_earlier_Y"] = dict(S["insert_earlier"], max_budget=0,
+                             sims=[dict(s, emit_default=0) if s["sid"] == "D" else s
+                                   for s in S["insert_earlier"]["sims"]] + [H("Y", next_default=1)],
+                             conns=S["insert_earlier"]["conns"] + [C("D", "Y", "eo", "ti")])
 # ---- "+X" variants: an unconnected simulator whose steps finish at arbitrary moments and make
 # mosaik recompute everybody's progress while others are between step() and get_data() ----------
 S["anc_getdata_inflight"] = dict(until=2, sims=[T("A"), E("B", emit_default=0), E("Cc"), T("X")],
